@@ -21,3 +21,16 @@ package clientinterceptors
 //@   modifies nothing
 //@   loop 0: modifies nothing
 //@   loop 0: invariant forall(j.(int), implies(0 <= j && j < idx, !typeIs(opts[j], TimeoutCallOption)))
+
+// C01 client breaker interceptor: one breaker activation per RPC, named target/method, with the status-code acceptability
+// predicate; the request function is the invoker with the caller's arguments, its error returned unchanged
+//@ func BreakerInterceptor
+//@   property C01
+//@   ghost at after Join#0: bn = ret
+//@   call Join#0: assert arg1 == method
+//@   call DoWithAcceptableCtx#0: assert arg_ctx == ctx && arg_name == bn
+//@ func BreakerInterceptor closure 0
+//@   property C01
+//@   flag callbacks_noheap
+//@   call invoker#0: assert arg0 == ctx && arg1 == method && arg2 == req && arg3 == reply && arg4 == cc
+//@   ensures calls(invoker) == old(calls(invoker)) + 1 && result == ret(invoker)
